@@ -304,6 +304,29 @@ func checkMain(args []string) {
 	var bounds []string
 	tot := ExploreResult{Reach: map[string]int{}}
 	xdis, xchecked := 0, 0
+	// one worker pool per package, loaded with the union of the harness files
+	allFiles := map[string][]string{}
+	for _, rs := range spec.Runs {
+		pk := rs.Pkg
+		if pk == "" {
+			pk = "."
+		}
+		for _, f := range rs.Files {
+			dup := false
+			for _, g := range allFiles[pk] {
+				dup = dup || g == f
+			}
+			if !dup {
+				allFiles[pk] = append(allFiles[pk], f)
+			}
+		}
+	}
+	pools := map[string]*pool{}
+	defer func() {
+		for _, pl := range pools {
+			pl.close()
+		}
+	}()
 	for _, rs := range spec.Runs {
 		if !tierOK(rs, tier) || only != "" && only != rs.Name {
 			continue
@@ -333,7 +356,13 @@ func checkMain(args []string) {
 		if rs.Workers > 0 {
 			workers = rs.Workers
 		}
-		res := explore(ls, exploreOpts{Workers: workers, Samples: 3, MaxViol: 4, Verbose: verbose})
+		pkey := ls.Pkg + "|" + strings.Join(allFiles[ls.Pkg], ",")
+		pl := pools[pkey]
+		if pl == nil {
+			pl = newPool(&loadSpec{Dir: dir, Pkg: ls.Pkg, Files: allFiles[ls.Pkg]})
+			pools[pkey] = pl
+		}
+		res := explore(pl, ls, exploreOpts{Workers: workers, Samples: 3, MaxViol: 4, Verbose: verbose})
 		outs = append(outs, runOut{rs, res})
 		fmt.Printf("run %s/%s: paths=%d pruned=%d aborted=%d decisions=%d queries=%d (sat %d unsat %d unknown %d) asserts=%d solver=%.1fs wall=%.1fs violating_paths=%d\n",
 			id, rs.Name, res.Paths, res.Pruned, res.Aborted, res.Decisions, res.Queries, res.Sat, res.Unsat, res.Unknown, res.Asserts, res.SolverS, res.WallS, res.ViolPaths)
@@ -379,7 +408,7 @@ func checkMain(args []string) {
 			if si >= 2 {
 				continue
 			}
-			rf := &ReplayFile{Property: id, Run: rs.Name, Pkg: ls.Pkg, Files: rs.Files, Fn: rs.Fn, Kind: "clean", Inputs: s.Model, Params: params}
+			rf := &ReplayFile{Property: id, Run: rs.Name, Pkg: ls.Pkg, Files: allFiles[ls.Pkg], Fn: rs.Fn, Kind: "clean", Inputs: s.Model, Params: params}
 			vec := filepath.Join(rp.scratch, fmt.Sprintf("sample-%s-%d.json", rs.Name, si))
 			jb, _ := json.Marshal(rf)
 			os.WriteFile(vec, jb, 0o644)
@@ -434,7 +463,7 @@ func checkMain(args []string) {
 				if vi >= 3 {
 					break
 				}
-				rf := &ReplayFile{Property: id, Run: rs.Name, Pkg: ls.Pkg, Files: rs.Files, Fn: rs.Fn, Label: v.Label, Kind: v.Kind, Msg: v.Msg,
+				rf := &ReplayFile{Property: id, Run: rs.Name, Pkg: ls.Pkg, Files: allFiles[ls.Pkg], Fn: rs.Fn, Label: v.Label, Kind: v.Kind, Msg: v.Msg,
 					Inputs: v.Model, Params: params, Tries: rs.Tries}
 				rpath = filepath.Join(replayDir, fmt.Sprintf("%s-%d-%d.json", rs.Name, gi, vi))
 				jb, _ := json.MarshalIndent(rf, "", " ")
@@ -557,6 +586,9 @@ func checkMain(args []string) {
 		fmt.Printf("FAIL property=%s: %d unlisted violation group(s) reproduced natively\n", id, violations)
 	}
 	rp.cleanup()
+	for _, pl := range pools {
+		pl.close()
+	}
 	os.Exit(exit)
 }
 
